@@ -187,6 +187,9 @@ func (p *memProvider) NATSConnection() *nats.Conn                 { return p.con
 // disconnectCB returns the handler registered with SetDisconnectHandler (nats.go has no getter for it), reading it under
 // the connection's own mutex as the client does.
 func disconnectCB(conn *nats.Conn) nats.ConnHandler {
+	if conn == nil {
+		return nil
+	}
 	mu := (*sync.RWMutex)(unsafe.Pointer(reflect.ValueOf(conn).Elem().FieldByName("mu").UnsafeAddr()))
 	mu.RLock()
 	defer mu.RUnlock()
@@ -279,7 +282,12 @@ func runRace(rep *Report, rng *rand.Rand, n int, thorough bool) error {
 		var els []leader.Election
 		var conns []*nats.Conn
 		for i := 1; i <= 3; i++ {
-			conn := &nats.Conn{}
+			// only the first election gets a connection (and with it a connection monitor): a monitored election can be
+			// started once - natsConnectionMonitor.Start refuses a second time - so the restarts of this mode need the others
+			var conn *nats.Conn
+			if i == 1 {
+				conn = &nats.Conn{}
+			}
 			cfg := leader.ElectionConfig{Bucket: "b", Group: "g", InstanceID: fmt.Sprintf("i%d", i), TTL: 3 * h, HeartbeatInterval: h,
 				ValidationInterval: 2 * h, DisconnectGracePeriod: 2 * h, Priority: i % 2, AllowPriorityTakeover: i == 3}
 			if i == 2 {
@@ -294,7 +302,7 @@ func runRace(rep *Report, rng *rand.Rand, n int, thorough bool) error {
 		}
 		stop := make(chan struct{})
 		var wg sync.WaitGroup
-		var calls atomic.Int64
+		var calls, startOK, startBusy, startErr atomic.Int64
 		spawn := func(seed int64, f func(r *rand.Rand)) {
 			wg.Add(1)
 			go func() {
@@ -316,11 +324,31 @@ func runRace(rep *Report, rng *rand.Rand, n int, thorough bool) error {
 				}
 			}()
 		}
+		tally := func(err error) {
+			switch {
+			case err == nil:
+				startOK.Add(1)
+			case err == leader.ErrAlreadyStarted:
+				startBusy.Add(1)
+			default:
+				startErr.Add(1)
+			}
+		}
 		for idx := range els {
 			el, conn := els[idx], conns[idx]
 			// lifecycle
 			spawn(rng.Int63(), func(r *rand.Rand) {
-				_ = el.Start(context.Background())
+				if r.Intn(4) == 0 {
+					// a run that the application ends by cancelling the context it passed to Start; the next iteration starts
+					// the same object again (connection handlers stay registered in between)
+					ctx, cancel := context.WithCancel(context.Background())
+					tally(el.Start(ctx))
+					time.Sleep(time.Duration(r.Intn(int(4*h/time.Millisecond))) * time.Millisecond)
+					cancel()
+					time.Sleep(time.Duration(r.Intn(3)) * time.Millisecond)
+					return
+				}
+				tally(el.Start(context.Background()))
 				time.Sleep(time.Duration(r.Intn(int(6*h/time.Millisecond))) * time.Millisecond)
 				switch r.Intn(3) {
 				case 0:
@@ -419,6 +447,7 @@ func runRace(rep *Report, rng *rand.Rand, n int, thorough bool) error {
 		}
 		time.Sleep(200 * time.Millisecond)
 		rep.Cases++
+		rep.hit(fmt.Sprintf("starts ok:%d refused:%d failed:%d", startOK.Load(), startBusy.Load(), startErr.Load()))
 		rep.Compared += int(calls.Load())
 		rep.nontrivial(fmt.Sprintf("round-%d", round))
 		rep.hit(fmt.Sprintf("api-calls:%d", calls.Load()/1000*1000))
